@@ -156,7 +156,12 @@ def run_driver(driver, lines, results):
         cid = ln.split(" ", 1)[0]
         merged.append("C " + ln)
         merged.append("R " + cid + " " + results.get(cid, "CRASH no result"))
-    rc, out, err = sh([driver], inp="\n".join(merged) + "\n")
+    try:
+        rc, out, err = sh([driver], inp="\n".join(merged) + "\n", timeout=1800)
+    except subprocess.TimeoutExpired as e:
+        # the model side must never decide a case by not answering: unjudged cases are internal errors, not verdicts
+        out = (e.stdout or b"").decode() if isinstance(e.stdout, bytes) else (e.stdout or "")
+        rc, err = -9, "driver budget exhausted"
     verdicts = {}
     for ln in out.splitlines():
         parts = ln.split(" ", 1)
